@@ -393,12 +393,12 @@ func writeFeatsTo(pl *C02Plan, sink *simio.Sink) (text []byte, want []string, wr
 				return nil, nil, 0, viol(site+"-bytecount", "record %d: Write returned n=%d but %d bytes were emitted", i, n, len(sink.Buf)-before)
 			}
 			if sink.Failed {
-				return sink.Buf, want, len(sink.Calls), nil
+				return sink.Buf, want, sink.NCalls, nil
 			}
 			cols, _ := bedColumns(b.build(pl.BedType), pl.WriteType)
 			want = append(want, fmt.Sprintf("bed%d %q", pl.WriteType, cols))
 		}
-		return sink.Buf, want, len(sink.Calls), nil
+		return sink.Buf, want, sink.NCalls, nil
 	}
 	gw := gff.NewWriter(sink, pl.Width, pl.Header)
 	w = gw
@@ -417,7 +417,7 @@ func writeFeatsTo(pl *C02Plan, sink *simio.Sink) (text []byte, want []string, wr
 			return nil, nil, 0, viol(site+"-bytecount", "item %d (%s): Write returned n=%d but %d bytes were emitted", i, it.Kind, n, len(emitted))
 		}
 		if sink.Failed {
-			return sink.Buf, want, len(sink.Calls), nil
+			return sink.Buf, want, sink.NCalls, nil
 		}
 		// the text carries 1-based inclusive coordinates
 		switch it.Kind {
@@ -440,7 +440,7 @@ func writeFeatsTo(pl *C02Plan, sink *simio.Sink) (text []byte, want []string, wr
 		}
 		want = append(want, gffDescribe(ref))
 	}
-	return sink.Buf, want, len(sink.Calls), nil
+	return sink.Buf, want, sink.NCalls, nil
 }
 
 // readFeats reads all features back until io.EOF.
@@ -546,7 +546,7 @@ func runC02(t *testing.T, c *Case, o RunOpts) *Result {
 			if pv := guard(func() { _, _, _, v = writeFeatsTo(&pl, sink) }); pv != nil {
 				v = pv
 			}
-			res.Steps += len(sink.Calls)
+			res.Steps += sink.NCalls
 		}
 	}
 	res.Viol = v
